@@ -51,8 +51,8 @@ var registry = []Harness{
 	{Prop: "C06", Pkg: "netmap", Func: "VerifC06Tick", Link: []string{"netmap", "balance", "probe1", "probe2"},
 		Bound: "3 legacy candidates (Online, Maintenance, Offline->removed), 1 structured, subscribers Balance+probe1+probe2 (probe1 subscribed twice), probe2 refuses one symbolic epoch; two newEpoch invocations with symbolic epochs -2..1000 and symbolic Alphabet signature"},
 	{Prop: "C07", Pkg: "netmap", Func: "VerifC07Candidates", Link: []string{"netmap"},
-		Quick: [][]int{{2}}, Thorough: [][]int{{3}},
-		Bound: "k (param) consecutive operations, each with symbolic method (addPeer/addPeerIR/addNode/updateState/updateStateIR/deleteNode), symbolic target in the pool {n0,n1}, symbolic state in Z, symbolic Alphabet and node signatures; reference model tracks n0"},
+		Quick: [][]int{{2, 0}, {1, 1}, {1, 2}}, Thorough: [][]int{{3, 0}, {2, 1}, {2, 2}},
+		Bound: "fixture param1 (0: empty; 1/2: n0 held by both lists in different states), then k (param0) consecutive operations, each with symbolic method (addPeer/addPeerIR/addNode/updateState/updateStateIR/deleteNode), symbolic target in the pool {n0,n1}, symbolic state in Z, symbolic Alphabet and node signatures; reference model tracks n0"},
 	{Prop: "C17", Pkg: "neofs", Func: "VerifC17Ballots", Link: []string{"neofs", "processing"},
 		Quick:    [][]int{{0, 1, 3}, {0, 3, 4}, {0, 4, 4}, {1, 4, 4}, {2, 4, 3}, {3, 4, 3}},
 		Thorough: [][]int{{0, 1, 4}, {0, 2, 4}, {0, 3, 5}, {0, 4, 5}, {0, 5, 5}, {0, 6, 5}, {0, 7, 5}, {1, 3, 4}, {1, 4, 5}, {1, 7, 5}, {2, 3, 4}, {2, 4, 4}, {2, 7, 5}, {3, 3, 4}, {3, 4, 4}, {3, 7, 5}},
@@ -130,11 +130,11 @@ var registry = []Harness{
 		Thorough: [][]int{{0, 1}, {1, 1}, {2, 1}, {3, 1}, {4, 1}, {5, 1}, {6, 1}, {7, 1}, {8, 1}, {9, 1}, {10, 1}, {0, 4}, {1, 4}, {2, 4}, {3, 4}, {5, 4}, {6, 4}, {7, 4}, {9, 4}, {10, 4}, {2, 7}, {6, 7}, {7, 7}},
 		Bound:    "contract #param0 of the 11 freshly deployed (post-deploy storage) as a release reporting a SYMBOLIC version v in Z, committee size param1, update with symbolic presence of the committee-majority, Alphabet and Inner-Ring-majority accounts; the replay builds the old release from a scratch copy of the tree with the version constant set to v"},
 	{Prop: "C05", Pkg: "container", Func: "VerifC05Fee", Link: []string{"nns", "netmap", "balance", "neofsid", "container"},
-		Quick:    [][]int{{1, 0, 0}, {4, 4, 0}, {7, 7, 0}, {1, 4, 1}, {4, 0, 1}},
-		Thorough: [][]int{{1, 0, 0}, {1, 4, 0}, {1, 7, 0}, {4, 0, 0}, {4, 4, 0}, {4, 7, 0}, {7, 0, 0}, {7, 4, 0}, {7, 7, 0}, {1, 0, 1}, {1, 4, 1}, {4, 0, 1}, {4, 7, 1}, {7, 4, 1}},
-		Bound:    "five linked contracts; committee size param0 in {1,4,7}; V2 blob with version-field length param1 in {0,4,7} and every other byte symbolic; fees (0 included), owner balance symbolic; symbolic Alphabet signature; param2: named container (alias fee, NNS registration); then the fee is changed and a second container is put"},
+		Quick:    [][]int{{1, 0, 0}, {4, 4, 0}, {7, 7, 0}, {1, 4, 1}, {4, 0, 1}, {4, 4, 2}},
+		Thorough: [][]int{{1, 0, 0}, {1, 4, 0}, {1, 7, 0}, {4, 0, 0}, {4, 4, 0}, {4, 7, 0}, {7, 0, 0}, {7, 4, 0}, {7, 7, 0}, {1, 0, 1}, {1, 4, 1}, {4, 0, 1}, {4, 7, 1}, {7, 4, 1}, {1, 0, 2}, {4, 4, 2}, {7, 7, 2}},
+		Bound:    "five linked contracts; committee size param0 in {1,4,7}; V2 blob with version-field length param1 in {0,4,7} and every other byte symbolic; fees (0 included), owner balance symbolic; symbolic Alphabet signature; param2: 1 = named container (alias fee, NNS registration), 2 = named with a domain registered in advance by the committee; then the fee is changed and a second container is put"},
 	{Prop: "C04", Pkg: "container", Func: "VerifC04Registry", Link: []string{"nns", "netmap", "balance", "neofsid", "container"},
-		Quick:    [][]int{{2, 0, 0, 3}, {2, 4, 2, 3}, {2, 0, 0, 4}, {2, 7, 3, 0}, {2, 0, 2, 2}, {2, 4, 1, 3}, {2, 0, 4, 3}, {2, 0, 0, 0}, {2, 4, 0, 2}, {2, 0, 2, 0}, {2, 0, 3, 3}, {2, 0, 2, 4}, {3, 0, 0, 4, 3}, {3, 4, 0, 3, 0}, {3, 0, 1, 3, 1}},
+		Quick:    [][]int{{2, 0, 0, 3}, {2, 4, 2, 3}, {2, 0, 0, 4}, {2, 7, 3, 0}, {2, 0, 2, 2}, {2, 4, 1, 3}, {2, 0, 4, 3}, {2, 0, 0, 0}, {2, 4, 0, 2}, {2, 0, 2, 0}, {2, 0, 3, 3}, {2, 0, 2, 4}, {3, 0, 0, 4, 3}, {3, 4, 0, 3, 0}, {3, 0, 1, 3, 1}, {3, 4, 2, 3, 2}},
 		Thorough: c04Thorough(),
 		Bound: "param0 consecutive symbolic operations (put, put with meta flag, putNamed with one shared name, delete, setEACL; symbolic target among two pool containers and a foreign id; symbolic Alphabet signature); blobs with version-field length param1 and all other bytes symbolic, second owner symbolic (same or other); after each operation get/owner/eACL/alias/count/list/containersOf and the NNS alias record are compared with a reference model; fees are zero (C05 covers them)"},
 	{Prop: "C10", Unwind: 300, Pkg: "nns", Func: "VerifC10Lifecycle", Link: []string{"nns"},
